@@ -36,7 +36,7 @@ const (
 
 var c25PxStart = time.Now()
 
-// c25PxStall: a child that does not start a new work unit for this long is considered hung.
+// c25PxStall: a child that does not complete a sequence (or claim a unit) for this long is considered hung.
 const c25PxStall = 5 * time.Minute
 
 // c25PxCollect, if set, lets a child hand extra key/values to the parent.
@@ -114,6 +114,17 @@ type c25PxChildState struct {
 	out      c25PxOut
 	fps      map[string]struct{}
 	outcomes map[string]struct{}
+	prog     string    // progress file (liveness record for the parent)
+	unit     int       // unit in progress
+	touched  time.Time // last time the progress file was rewritten
+}
+
+// alive rewrites the progress file (at most once a second): "a sequence was completed just now".
+func (s *c25PxChildState) alive() {
+	if time.Since(s.touched) > time.Second {
+		os.WriteFile(s.prog, []byte(strconv.Itoa(s.unit)), 0o666)
+		s.touched = time.Now()
+	}
 }
 
 func (s *c25PxChildState) expired() bool {
@@ -163,19 +174,21 @@ func c25PxChild(h *vx.Harness) bool {
 		return v
 	}
 	prog := filepath.Join(dir, "progress-"+id)
+	s.prog = prog
 	for !s.expired() {
 		u := claim()
 		if u >= len(s.job.Units) {
 			break
 		}
 		os.WriteFile(prog, []byte(strconv.Itoa(u)), 0o666)
+		s.unit, s.touched = u, time.Now()
 		switch s.job.Mode {
 		case "dfs":
 			s.dfsUnit(s.job.Units[u])
 		case "paths":
 			s.path(u, s.job.Units[u])
 		case "custom":
-			ev, ds, vs := c25PxCustom(s.job.Units[u], s.expired)
+			ev, ds, vs := c25PxCustom(s.job.Units[u], func() bool { s.alive(); return s.expired() })
 			s.out.Seqs += ev
 			for _, d := range ds {
 				s.fps[c25PxHash(d)] = struct{}{}
@@ -269,6 +282,7 @@ func (s *c25PxChildState) dfsUnit(prefix []int) {
 			}
 			vx.Guard(inst.Close)
 			s.out.Seqs++
+			s.alive()
 			skipAt = failAt
 		}
 		pos := depth - 1
@@ -405,7 +419,7 @@ func c25PxSpawn(c *vx.Check, h *vx.Harness, job c25PxJob, kv map[string]string) 
 							cmd.Process.Kill()
 							<-done
 						}
-						errs[i] = fmt.Errorf("stalled: no new unit started for %v", c25PxStall)
+						errs[i] = fmt.Errorf("stalled: no explored sequence completed for %v", c25PxStall)
 						return
 					}
 				}
